@@ -280,6 +280,12 @@ fn episode(ctx: &Ctx, f: Focus, case: u64, out: &mut Out) -> Result<(), (Fail, S
     let dir = fresh_dir(&ctx.scratch, &format!("c{}", case));
     let mut e = Eng::new(r, &dir, conf, thr, keys, big_ok);
     e.huge_ok = case % 8 == 5 && f != Focus::C19;
+    // C02, an eighth of the episodes: the local time zone of the process changes at every reopen
+    // (a machine that moves, daylight saving time ending)
+    e.tz_walk = f == Focus::C02 && case % 8 == 1;
+    if e.tz_walk {
+        out.count("episodes_with_a_time_zone_change_at_every_reopen", 1);
+    }
     // an eighth of the episodes on a file system that completes some writes only partly (not those
     // that arm a fault of their own)
     // another eighth (C02, C05, C19): now and then a set or delete in which one call on a data file
@@ -296,6 +302,15 @@ fn episode(ctx: &Ctx, f: Focus, case: u64, out: &mut Out) -> Result<(), (Fail, S
     let mut rebuilt_from_hint = false;
     let res = (|| -> Result<(), Fail> {
         e.open()?;
+        if f == Focus::C12 && case % 8 == 1 {
+            // a directory that is not the store's alone: an empty file named like a hint file with an
+            // id the store has not reached yet (left by something else). The store may trip over it
+            // when a merge wants that name (not C12's subject), but when a data file of that id
+            // comes to exist the empty hint must not stand for it
+            let id = *e.r.pick(&[2u64, 2, 4, 6]);
+            let _ = std::fs::write(e.dir.join(format!("{}.bitcask.hint", id)), b"");
+            out.count("episodes_with_a_foreign_empty_hint_file", 1);
+        }
         for step in 0..nops {
             let x = e.r.below(100);
             if x < merge_pct {
